@@ -5,6 +5,8 @@ id="$1"; tier="${2:-quick}"; prop=$(echo "$id" | cut -c1-3)
 cd /verif || exit 2
 git -C /repo diff --quiet || { echo "/repo not clean"; exit 2; }
 git -C /repo apply /verif/seeded/$id/patch.diff || exit 2
+cp evidence/$prop.json /tmp/mut/ev_$prop.json 2>/dev/null
 ./check $prop --tier $tier > /tmp/mut/try_$id.log 2>&1; rc=$?
+cp /tmp/mut/ev_$prop.json evidence/$prop.json 2>/dev/null
 git -C /repo checkout -- .
 grep -E "^(VIOLATION|KNOWN|BROKEN|\[C)" /tmp/mut/try_$id.log; echo "exit=$rc"
